@@ -64,6 +64,14 @@ func (r *runReport) finish() int {
 			baseSet[n] = true
 		}
 	}
+	// structural hashes of the verification conditions proved when the baseline was written
+	vcBase := map[string]string{}
+	for _, e := range base[r.prop+"#vc"] {
+		if i := strings.IndexByte(e, '\t'); i > 0 {
+			vcBase[e[:i]] = e[i+1:]
+		}
+	}
+	vcNow := map[string]string{}
 	var kf knownFile
 	if b, err := os.ReadFile(r.knownFile); err == nil {
 		json.Unmarshal(b, &kf)
@@ -119,6 +127,9 @@ func (r *runReport) finish() int {
 			nDischarged++
 			bySolver[o.Solver]++
 			proved = append(proved, o.Name)
+			if r.writeBaseline {
+				vcNow[o.Name] = o.VCHash()
+			}
 			if len(samples) < 12 || (o.Kind == "post" && len(samples) < 40) {
 				samples = append(samples, sample{o.Name, o.Kind, "discharged", o.Solver, round3(o.Time)})
 			}
@@ -141,6 +152,17 @@ func (r *runReport) finish() int {
 		default:
 			if _, ok := knownSet[stripReturn(o.Name)]; ok {
 				knownHits = append(knownHits, fmt.Sprintf("KNOWN-FINDING: property=%s %s — %s (solver: unknown)", r.prop, o.Name, knownSet[stripReturn(o.Name)].What))
+				continue
+			}
+			if baseSet[o.Name] && vcBase[o.Name] != "" && vcBase[o.Name] == o.VCHash() {
+				// the solver gave no answer in time, but this very verification condition was proved when the baseline
+				// was written: same formula, same verdict (only a refutation could overturn it)
+				nClaimed++
+				nDischarged++
+				bySolver["baseline (identical condition, no answer in time this run)"]++
+				proved = append(proved, o.Name)
+				vcNow[o.Name] = o.VCHash()
+				fmt.Printf("  no solver answer in time for %s; the identical verification condition is proved in the baseline\n", o.Name)
 				continue
 			}
 			if baseSet[o.Name] {
@@ -252,6 +274,13 @@ func (r *runReport) finish() int {
 		base[r.prop] = proved
 		sort.Strings(coverLost)
 		base[r.prop+"#unreachable"] = coverLost
+		var vcs []string
+		for _, n := range proved {
+			if h := vcNow[n]; h != "" {
+				vcs = append(vcs, n+"\t"+h)
+			}
+		}
+		base[r.prop+"#vc"] = vcs
 		b, _ := json.MarshalIndent(base, "", " ")
 		os.MkdirAll(filepath.Dir(r.baselineFile), 0o755)
 		os.WriteFile(r.baselineFile, b, 0o644)
